@@ -31,6 +31,11 @@ def _nested_list_to_mx(value):
     return ca.vertcat(*[ca.MX(e) for e in value])
 
 
+def _contains_mx(value):
+    """Is this attribute value a (nested) list with MX elements, e.g. start = {p, 2 * p}?"""
+    return isinstance(value, list) and any(isinstance(e, ca.MX) or _contains_mx(e) for e in value)
+
+
 class Variable:
     def __init__(self, symbol, python_type=float, aliases=None):
         if aliases is None:
@@ -64,7 +69,7 @@ class Variable:
 
         for attr in CASADI_ATTRIBUTES:
             d[attr] = getattr(self, attr)
-            if isinstance(d[attr], ca.MX):
+            if isinstance(d[attr], ca.MX) or _contains_mx(d[attr]):
                 d[attr] = None  # Will be filled using variable_metadata_function
 
         return d
